@@ -1,5 +1,7 @@
 import Uom.Model.Conv
 import Uom.Model.Oracle
+import Uom.Proofs.BodyEq.Conv
+import Uom.Proofs.BodyEq.Storage
 /-!
 # C20 — complex storage (known finding F5)
 
@@ -41,5 +43,29 @@ theorem complex_partial (f : Fmt) (norm : Fl × Fl → Fl) (coef c fac re : Fl)
     (hn : norm (re, Fl.zero f false) = re) :
     toBase (cplxS f norm) coef c fac (re, Fl.zero f false) = (toBase (flS f) coef c fac re, Fl.zero f false) := by
   rw [complex_defect, hn]
+
+/-! ### tie to the source: the function bodies regenerated from /repo/src on this run
+
+`Gen.Body.*` below is what the translator read from the Rust source just now; `Body.run` evaluates it
+over any storage type.  These theorems state the property's code path *for the regenerated bodies*:
+they fail to check as soon as the source computes something else. -/
+section SourceTie
+open Uom.Body Uom.Gen.Body
+
+/-- complex storage as the code is: the conversion factor of a value is `self.norm()`, and a factor is
+    re-embedded by `V::new(self, 0.0)` (`cplxS.conv`, `cplxS.value`); construction and reading run the
+    same `to_base` / `from_base` kernel as every other storage type -/
+theorem src_complex_storage (N : NumTy) (env : Env N) (x : Val N) :
+    run N env lib_Conversion_V_for_V_conversion_Complex [x] = env.fwd m_norm [x] ∧
+    run N env lib_ConversionFactor_V_for_VV_value_Complex [x] = env.ext f_V_new [x, .bad] :=
+  ⟨rfl, rfl⟩
+theorem src_new (N : NumTy) (env : Env N) (v : N.S.V) :
+    run N env quantity_inherent_quantity_new [argV v]
+      = argQ (toBase N.S env.nCoef env.nConsA (env.bf .U .Dimension) v) := BodyEq.new_eq N env v
+theorem src_get (N : NumTy) (env : Env N) (a : N.S.V) :
+    run N env quantity_inherent_quantity_get [argQ a]
+      = argV (fromBase N.S env.nCoef env.nConsS (env.bf .U .Dimension) a) := BodyEq.get_eq N env a
+
+end SourceTie
 
 end Uom.C20
